@@ -145,19 +145,30 @@ func (t *Target) denyByIP(ip net.IP) bool {
 }
 
 // ProcessAccessRules processes access rules from options specified on the target route
+//
+// Rules which cannot be parsed must not widen access since callers may only
+// log the error. In that case the target denies all requests.
 func (t *Target) ProcessAccessRules() error {
 	if t.Opts["allow"] != "" && t.Opts["deny"] != "" {
+		t.denyAll()
 		return errors.New("specifying allow and deny on the same route is not supported")
 	}
 
 	for _, allowDeny := range []string{"allow", "deny"} {
 		if t.Opts[allowDeny] != "" {
 			if err := t.parseAccessRule(allowDeny); err != nil {
+				t.denyAll()
 				return err
 			}
 		}
 	}
 	return nil
+}
+
+// denyAll replaces the access rules with an allow list that has no blocks
+// and therefore matches no address.
+func (t *Target) denyAll() {
+	t.accessRules = map[string][]interface{}{ipAllowTag: {}}
 }
 
 func (t *Target) parseAccessRule(allowDeny string) error {
